@@ -1,3 +1,40 @@
-import Sheens.ES
+import Sheens.Specter
+import Sheens.Engine
+import Sheens.Proofs.SpecterLemmas
 
-/-! Property C12 — theorems (in progress). -/
+/-!
+# Property C12 — a compiled spec is shared immutable data; spec updates are atomic
+(partial: the Go memory model and `sync/atomic` are trusted; the absence of write sites rooted in the
+spec is re-checked from the source on every run by `FactsOK.engine_writes_only_locals` and
+`FactsOK.matcher_writes_only_locals_and_bindings`)
+-/
+
+namespace Sheens.C12
+
+open Specter
+
+/-- Processing is a function of its arguments: a walk obtains exactly the result it would obtain
+    alone, whatever else is being processed against the same (immutable) spec value. -/
+theorem walk_deterministic (s : Spec) (st : State) (msgs : List V) (l : Option Int) (bp : State → Bool)
+    (w₁ w₂ : Walked) (h₁ : walk s st msgs l bp = w₁) (h₂ : walk s st msgs l bp = w₂) : w₁ = w₂ := by
+  exact h₁ ▸ h₂
+
+/-- Every processing call observes one complete version — one that was current at some moment
+    between its start and its return: the old one or a new one. -/
+theorem loaded_was_current (v0 : Nat) (c : Nat) (h : List Ev) (hw : wellFormed c h) :
+    ∃ v, loaded v0 c h = some v ∧ v ∈ currentDuring v0 c h false := by
+  obtain ⟨a, b, d, rfl, ha, hb, _⟩ := hw
+  refine ⟨current (current v0 a) b, ?_, ?_⟩
+  · exact loaded_decomp v0 c a b d (fun e he => (ha e he).2.1) (fun e he => (hb e he).2.1)
+  · rw [currentDuring_decomp v0 c a b d (fun e he => ⟨(ha e he).1, (ha e he).2.2⟩)]
+    rcases current_mem_inside c (.load c :: d) b (current v0 a) (fun e he => (hb e he).2.2) with heq | hmem
+    · rw [heq]; exact List.mem_cons_self
+    · exact List.mem_cons_of_mem _ hmem
+
+/-- Without a concurrent swap a call sees the version current when it started. -/
+theorem loaded_without_swap (v0 : Nat) (c : Nat) (a b d : List Ev)
+    (hb : ∀ e ∈ b, ∀ v, e ≠ .write v) (hb2 : ∀ e ∈ b, e ≠ .load c) (ha : ∀ e ∈ a, e ≠ .load c) :
+    loaded v0 c (a ++ [.begin_ c] ++ b ++ [.load c] ++ d) = some (current v0 a) := by
+  rw [loaded_decomp v0 c a b d ha hb2, current_no_write b _ hb]
+
+end Sheens.C12
